@@ -318,11 +318,13 @@ def check_C12(res, replay):
 def check_C08(res, replay):
     res.trusted = TB_COMMON + ["HashSet traversal modelled as traversal of an arbitrary enumeration (List.Perm = all hash seeds)",
                                "Mathlib (sum over a permutation for the real-valued energy)", "axioms audited: subset of {propext, Classical.choice, Quot.sound}"]
-    res.assumptions = ["'equal to rounding' for energies/gradients: over the reals the sums are equal; in doubles only the summation order differs (checked to 1e-9 relative on the real code)",
+    res.assumptions = ["'equal to rounding' for energies/gradients: over the reals the sums are equal; in doubles only the summation order differs (checked to 1e-9 relative on the real code); "
+                       "since the repair d96d9b1 the terms are created in the canonical order of their atom indices, and canonical_perm_invariant / canonical_foldl_perm_invariant show that "
+                       "the canonically ordered list, and any left-to-right accumulation over it, is the same for every enumeration — no algebraic law needed",
                        "bond-order assignment (guess + hypervalency refinement) is proved to commute with re-enumeration of the bond set (bond_orders_perm, bond_order_of_pair_perm)",
                        "the optimised structure is a function of (start, answers) by C05's model, hence of the (order-independent) force field"]
     L.run_translators(["tables", "terms", "uff"], res)
-    L.prove(["OptRs.Props.C08", "OptRs.Props.C08Orders", "OptRs.Props.C10"], res, BUILD_AUDIT + ["OptRs.Lemmas.FFReal", "OptRs.Lemmas.OrdersPerm"])
+    L.prove(["OptRs.Props.C08", "OptRs.Props.C08Orders", "OptRs.Props.C08Canon", "OptRs.Props.C10"], res, BUILD_AUDIT + ["OptRs.Lemmas.FFReal", "OptRs.Lemmas.OrdersPerm"])
     L.build_cli(res)
     if L.build_harness(res) and L.build_model(res):
         for stream, model, io in (("build", "build", True), ("repro", "-", False)):
@@ -331,7 +333,7 @@ def check_C08(res, replay):
                 L.compare_lines(lines, model, res, stream, ignore_oracle=io)
         res.cases += int(res.stats.get("repro.molecules", "0")) * int(res.stats.get("repro.constructions_per_molecule", "0"))
         res.distinct += int(res.stats.get("repro.with_centre_of_three_or_more_neighbours", "0"))
-    return L.finish(res, "proof", "lake build OptRs.Props.C08 OptRs.Props.C08Orders OptRs.Props.C10 + #print axioms audit",
+    return L.finish(res, "proof", "lake build OptRs.Props.C08 OptRs.Props.C08Orders OptRs.Props.C08Canon OptRs.Props.C10 + #print axioms audit",
                     "every molecule of the build stream is constructed once against the deterministic model; library + low-symmetry distorted centres (>= 3 neighbours with "
                     "pairwise different angles) are constructed 24 (quick) / 64 (thorough) times in one process — each HashSet draws fresh keys — comparing connectivity, assigned "
                     "types, sorted term lists bit for bit and UFF energy/gradient to 1e-9; the command-line tool is run 4 (quick) / 8 (thorough) times per input comparing the atoms and coordinates of opt.xyz to the written precision (1e-6 A)")
